@@ -657,12 +657,15 @@ impl Exec {
                 Some("ok".into())
             }
             "lib" => {
-                let name = unhex_str(w[2])?;
+                // the op carries the library's identity string `dir/…/name`; LibraryInfo::name is its last component
+                // (so that different libraries can share a name), the path is "/lib/" + identity
+                let ident = unhex_str(w[2])?;
+                let name = ident.rsplit('/').next().unwrap_or("").to_string();
                 let h = self.p.add_lib(LibraryInfo {
                     name: name.clone(),
                     debug_name: name.clone(),
-                    path: format!("/lib/{name}"),
-                    debug_path: format!("/lib/{name}"),
+                    path: format!("/lib/{ident}"),
+                    debug_path: format!("/lib/{ident}"),
                     debug_id: DebugId::nil(),
                     code_id: None,
                     arch: None,
@@ -977,9 +980,22 @@ fn strv(v: Option<&Value>) -> String {
     hexs(v.and_then(|x| x.as_str()).unwrap_or("?"))
 }
 
+/// identity string of a serialized library: its path without the "/lib/" prefix the `lib` op added; the
+/// `name` field must be the identity's last component (otherwise the identity is reported as `?name`)
+fn lib_ident(l: &Value) -> String {
+    let path = l.get("path").and_then(|x| x.as_str()).unwrap_or("?");
+    let name = l.get("name").and_then(|x| x.as_str()).unwrap_or("?");
+    let ident = path.strip_prefix("/lib/").unwrap_or("?");
+    if ident.rsplit('/').next().unwrap_or("") == name && l.get("debugName").and_then(|x| x.as_str()) == Some(name) && l.get("debugPath").and_then(|x| x.as_str()) == Some(path) {
+        hexs(ident)
+    } else {
+        hexs(&format!("?{name}"))
+    }
+}
+
 fn dump(json: &Value, out: &mut Vec<String>, stats: &mut Stats) {
     let libs = json.get("libs").and_then(|l| l.as_array()).cloned().unwrap_or_default();
-    out.push(format!("libs {}", libs.iter().map(|l| strv(l.get("name"))).collect::<Vec<_>>().join(" ")).trim_end().to_string());
+    out.push(format!("libs {}", libs.iter().map(|l| lib_ident(l)).collect::<Vec<_>>().join(" ")).trim_end().to_string());
     let meta = &json["meta"];
     let cats = meta.get("categories").and_then(|c| c.as_array()).cloned().unwrap_or_default();
     let mut s = String::from("cats");
